@@ -1562,13 +1562,13 @@ func TestCheck(t *testing.T) {
 		return
 	}
 	log.Root().SetHandler(log.DiscardHandler())
-	run := ev.Start("configurations x inputs")
+	run := ev.Start("exploration")
 	run.Rule = "one worker process per opt-in environment combination; in each, every method of every registered API (universe from the node, server's own reflection rule) x cartesian product of per-type argument lattices (<=3 varying arguments, <=400 tuples) x 4 transports x wire variants (plain, batch, eth_ alias, bare btc); a case is non-trivial when the call reached the method (result or callback error)"
 	run.Assume("proof-of-work chain configuration (test chain, chain id 3); the clique sealer is exercised as a separate informational configuration in the thorough tier")
 	run.Assume("signing is observed through a recording wallet in front of the real keystore wallet, the transaction pool, and signatures in RPC results; a key use that bypasses the account manager, never reaches the pool and is not returned would not be seen")
 	run.Assume("keystore: one locked and one unlocked funded account, same passphrase; restored before every call")
 	run.Assume("UNSAFE_RPC_SIGNING is not a per-transport opt-in and must not enable signing by itself")
-	deadline := run.Deadline(75*time.Second, 9*time.Minute)
+	deadline := run.Deadline(75*time.Second, 12*time.Minute)
 
 	if d := ev.Replay(); d != nil {
 		var cfg config
